@@ -17,10 +17,39 @@ class Undecided(Exception):
     """A rule met a form it does not recognise -> exit 2, never a violation."""
 
 
+class _LowerIfExp(ast.NodeTransformer):
+    """`x = a if c else b` / `return a if c else b`  ->  the equivalent if statement (the rules then see one form only)"""
+
+    def _lower(self, st, mk):
+        v = st.value
+        if not isinstance(v, ast.IfExp):
+            return st
+        body = self._lower(ast.copy_location(mk(v.body), st), mk)
+        orelse = self._lower(ast.copy_location(mk(v.orelse), st), mk)
+        new = ast.copy_location(ast.If(test=v.test, body=body if isinstance(body, list) else [body],
+                                       orelse=orelse if isinstance(orelse, list) else [orelse]), st)
+        return new
+
+    def visit_Assign(self, node):
+        import copy
+        if isinstance(node.value, ast.IfExp) and all(isinstance(t, (ast.Name, ast.Attribute, ast.Tuple)) for t in node.targets):
+            return self._lower(node, lambda v: ast.Assign(targets=copy.deepcopy(node.targets), value=v, type_comment=None))
+        return node
+
+    def visit_Return(self, node):
+        if isinstance(node.value, ast.IfExp):
+            return self._lower(node, lambda v: ast.Return(value=v))
+        return node
+
+    def visit_Lambda(self, node):
+        return node
+
+
 class Module:
     def __init__(self, rel, src):
         self.rel, self.src = rel, src
         self.tree = ast.parse(src, filename=rel)
+        self.tree = ast.fix_missing_locations(_LowerIfExp().visit(self.tree))
         self.tree._parent = None
         for node in ast.walk(self.tree):
             for child in ast.iter_child_nodes(node):
